@@ -158,16 +158,28 @@ def gen_case(seed, i):
     if opts["L"] and rng.random() < 0.5:
         # a followed link whose target is a hidden file, or lies inside a hidden directory: the target
         # is an entry like any other and --hidden decides about it
-        hid = [f for f in files if "/." in f]
-        if not hid:
+        # (a file with a visible name inside a hidden directory is selectable only through such a link; a file
+        # whose own name is hidden stays unselected either way - both kinds are drawn)
+        hid = [f for f in files if "/." in f and not f.rsplit("/", 1)[1].startswith(".")]
+        if not hid or rng.random() < 0.2:
             d = rng.choice(dirs)
             fam += 1
-            hid = [d + "/" + rng.choice([".hid.txt", ".k"])]
+            hid = [d + "/" + rng.choice([".hid.txt", ".hd/f.txt", ".hd/k", ".hd/sub/m.txt"])]
             w.add_file(hid[0], {"fam": fam, "len": rng.choice([1, 5, 50]), "flips": []})
             files.append(hid[0])
         t = rng.choice(hid)
         vis = [d for d in dirs if "/." not in d] or dirs
         d = rng.choice(vis)
+        if not opts.get("regex") and rng.random() < 0.4:
+            # ... and --path names the target (or its directory) while the link sits in a directory that cannot
+            # match that pattern: pruning the link's directory must not lose the target
+            esc_t = "".join(("\\" + ch) if ch in "[]{}?*\\" else ch for ch in t)
+            opts["path"] = ["@W@/" + rng.choice([esc_t, esc_t.rsplit("/", 1)[0] + "/*"])]
+            opts.pop("name", None)
+            d = roots[-1] + "/outside.d"
+            if d not in dirs:
+                w.add_dir(d)
+                dirs.append(d)
         w.add_symlink(d + "/l_hid", rng.choice([os.path.relpath(t, d), "@ROOT@/" + t]))
     if opts.get("i") and not opts.get("regex") and rng.random() < 0.6:
         # case-insensitive matching of cwd-relative patterns whose case differs from the names
